@@ -99,3 +99,18 @@ def strip_ok(s):
 def strip_bad(s):
     t = s.strip("#b")
     return t == s[:1]
+
+
+class Shelf(object):
+    def __init__(self):
+        self.items = []
+
+    def clear_new(self):
+        self.items = []
+
+    def clear_same(self):
+        del self.items[:]
+
+
+def near_ok(a, b):
+    return round(a, 2) == round(b, 2)
